@@ -126,6 +126,55 @@ impl<'a> W<'a> {
         }
         v
     }
+    /// CString (lang-spec.md): UTF-8 bytes terminated by a zero byte. Bounded contracts restrict string content to
+    /// ASCII: a non-ASCII byte makes the walk "not covered" (ok = false), never canonical.
+    pub fn cstring(&mut self) {
+        let mut done = false;
+        while self.ok && !done {
+            let c = self.le1();
+            if self.ok {
+                if c == 0 {
+                    done = true;
+                } else if c >= 0x80 {
+                    self.ok = false;
+                }
+            }
+        }
+    }
+    /// SizedCString: u32 = content length + 1, then the content and its zero terminator
+    pub fn sized_cstring(&mut self) {
+        let len = self.le4();
+        if self.ok && len == 0 {
+            self.ok = false;
+        }
+        let mut i: u64 = 0;
+        while self.ok && i < len {
+            let c = self.le1();
+            if self.ok {
+                if i + 1 == len {
+                    if c != 0 {
+                        self.ok = false;
+                    }
+                } else if c >= 0x80 || c == 0 {
+                    // interior NUL: the decoder keeps it, but a reader of the C string would stop; treated as not covered
+                    self.ok = false;
+                }
+            }
+            i += 1;
+        }
+    }
+    /// String: u8 length, then that many bytes
+    pub fn string(&mut self) {
+        let len = self.le1();
+        let mut i: u64 = 0;
+        while self.ok && i < len {
+            let c = self.le1();
+            if self.ok && c >= 0x80 {
+                self.ok = false;
+            }
+            i += 1;
+        }
+    }
     /// canonical encoding of the whole body of `n` bytes
     pub fn canonical_whole(&self) -> bool {
         self.ok && self.canon && self.p == self.n
